@@ -130,6 +130,12 @@ def gen_history(rng, pools):
         mols[n] = rng.sample(pools[n], min(len(pools[n]), rng.randint(3, 6)))
         if rng.random() < 0.6:
             mols[n] += rng.sample(pools[n][:7], 3)    # homologs
+        if rng.random() < 0.25:
+            # a molecule / a mixture with more than 1000 atom-level matches
+            # of the smallest patterns (caps, limits left behind by other
+            # work in the process)
+            mols[n].append(rng.choice(['C' * 45, 'C' * 25 + '.' + 'C' * 25
+                                       + 'O']))
     for n in names:
         objs.append((len(objs), n))
         ops.append({'op': 'load', 'obj': objs[-1][0], 'db': n,
@@ -151,6 +157,10 @@ def gen_history(rng, pools):
             decs.append((len(decs), o, n, smi, arg))
             ops.append({'op': 'decompose', 'dec': decs[-1][0], 'obj': o,
                         'db': n, 'smiles': smi, 'form': form, 'arg': arg})
+            if rng.random() < 0.2:
+                ops[-1]['via'] = 'worker'
+            if rng.random() < 0.12:
+                ops.append({'op': 'foreign', 'what': rng.choice(FOREIGN)})
         elif r < 0.56:
             d = rng.choice(decs[-6:]) if rng.random() < 0.5 else \
                 rng.choice(decs)
@@ -162,6 +172,8 @@ def gen_history(rng, pools):
                         'obj': o, 'db': d[2], 'smiles': d[3], 'arg': d[4],
                         'latest_dec_of_obj': max(
                             [x[0] for x in decs if x[1] == o] or [-1])})
+            if rng.random() < 0.2:
+                ops[-1]['via'] = 'worker'
         elif r < 0.88 and ests:
             e = rng.choice(ests[-4:])
             db_of_est = [d for d in decs if d[0] == e[1]][0][2]
@@ -177,6 +189,10 @@ def gen_history(rng, pools):
                             'prop': rng.choice(PROPS),
                             'T': rng.choice([300.0, 500.0, 298.15, 750.0]),
                             's_el': rng.random() < 0.4})
+            v_ = rng.random()
+            if v_ < 0.55:
+                ops[-1]['via'] = 'deepcopy' if v_ < 0.2 else \
+                    'pickle' if v_ < 0.4 else 'worker'
         elif r < 0.94:
             o, n = rng.choice(objs)
             ops.append({'op': 'merge', 'src': o, 'db': n})
@@ -189,6 +205,9 @@ def gen_history(rng, pools):
             ops.append({'op': 'load', 'obj': objs[-1][0], 'db': n,
                         'how': rng.choice(['name', 'relpath'])})
     return ops
+
+
+from vmon.core.foreign import FOREIGN, foreign_work  # noqa: E402
 
 
 def needed_keys(ops):
@@ -274,7 +293,12 @@ def run_history(ctx, hid, ops, table):
                         Chem.AddHs(m_) if form == 'molH_shared' else m_
                 arg = shared_mols[(form, op['smiles'])]
                 ctx.count('decompositions_of_a_shared_mol_object')
-            o = observe(lib.GetDescriptors, arg)
+            if op.get('via') == 'worker':
+                from vmon.core.threads import in_worker
+                o = observe(in_worker, lib.GetDescriptors, arg)
+                ctx.count('history_steps_run_in_the_worker_thread')
+            else:
+                o = observe(lib.GetDescriptors, arg)
             ctx.evals()
             fresh = table['descriptors']['%s|%s' % (
                 op['db'], op.get('arg', op['smiles']))]
@@ -315,7 +339,12 @@ def run_history(ctx, hid, ops, table):
                 ests[op['est']] = None
                 continue
             lib = objs[op['obj']]
-            o = observe(lib.Estimate, d, 'thermochem')
+            if op.get('via') == 'worker':
+                from vmon.core.threads import in_worker
+                o = observe(in_worker, lib.Estimate, d, 'thermochem')
+                ctx.count('history_steps_run_in_the_worker_thread')
+            else:
+                o = observe(lib.Estimate, d, 'thermochem')
             ctx.evals()
             ests[op['est']] = o.get('ok')
             est_meta[op['est']] = op
@@ -327,7 +356,26 @@ def run_history(ctx, hid, ops, table):
                 continue
             meta = est_meta[op['est']]
             kw = {'S_elements': True} if op['s_el'] else {}
-            o = observe(getattr(e, op['prop']), op['T'], **kw)
+            via = op.get('via')
+            if via in ('deepcopy', 'pickle'):
+                # the value is read from a copy / an unpickled copy of the
+                # estimate, which is dropped again at once (its memory is
+                # free for the next one): still the fresh-process value
+                import copy as _copy
+                import pickle as _pickle
+                try:
+                    e = _copy.deepcopy(e) if via == 'deepcopy' else \
+                        _pickle.loads(_pickle.dumps(e))
+                    ctx.count('values_read_from_a_clone_of_the_estimate')
+                except Exception as exc:
+                    ctx.skip('estimate cannot be cloned by %s (%s)' % (
+                        via, type(exc).__name__))
+            if via == 'worker':
+                from vmon.core.threads import in_worker
+                o = observe(in_worker, getattr(e, op['prop']), op['T'], **kw)
+                ctx.count('history_steps_run_in_the_worker_thread')
+            else:
+                o = observe(getattr(e, op['prop']), op['T'], **kw)
             ctx.evals()
             key = '%s|%s|%s|%r|%r' % (meta['db'],
                                       meta.get('arg', meta['smiles']),
@@ -399,6 +447,17 @@ def run_history(ctx, hid, ops, table):
                               {'step': step, 'len': len(probe)})
                 return
             ctx.count('merges')
+        elif kind == 'foreign':
+            # work in ANOTHER part of the package between the steps (its
+            # results are other properties' business; here only: nothing
+            # that follows may notice)
+            fo = observe(foreign_work, op['what'])
+            ctx.evals()
+            if 'exc' in fo:
+                ctx.skip('foreign work %r raised %s' % (op['what'],
+                                                        fo['exc']))
+            ctx.count('foreign_subsystem_steps')
+            ctx.klass('foreign step: ' + op['what'])
         elif kind == 'scheme_include':
             src = objs[op['src']]
             n0 = (len(src.scheme.patterns), len(src.scheme.other_descriptors),
@@ -426,6 +485,20 @@ def run_history(ctx, hid, ops, table):
             ctx.count('scheme_includes')
         if not digest_check(step, op, before):
             return
+    # at the end of the history: every estimate it made against its own
+    # copies / unpickled copies (made and dropped one after the other, so
+    # that their memory is re-used by the next)
+    from vmon.core import clones
+    for k_, e_ in list(ests.items())[:8]:
+        if e_ is None:
+            continue
+        if not clones.agreement(ctx, dict(case, estimate=k_), e_, [
+                ('%s(%r)' % (nm, T_), lambda x, nm=nm, T_=T_: repr(float(
+                    getattr(x, nm)(T_))))
+                for nm in ('get_SoR', 'get_GoRT', 'get_HoRT')
+                for T_ in (300.0, 500.0)], 'estimate made in a history',
+                'after'):
+            break
     if compared >= 3:
         ctx.nontrivial(['hist', hid])
         ctx.klass('history length %s' % ('<=10' if len(ops) <= 10 else
